@@ -633,7 +633,8 @@ def store_subscript(ip, obj, idx, v):
     if isinstance(obj, KDict):
         kd_set(ip, obj, idx, v)
         return
-    if isinstance(obj, PDict) and isinstance(idx, Sym) and idx.schema and not obj.d:
+    if isinstance(obj, PDict) and isinstance(idx, Sym) and not obj.d and \
+            (idx.schema or not is_enum(idx)):
         morph_to_kdict(obj)
         kd_set(ip, obj, idx, v)
         return
